@@ -31,6 +31,7 @@ EXPLANATION = (
     "price a request carries to be > 0 (threshold cells) and on the pair's precision grid, before the order exists. "
     "Numeric size of slippage and rounding to quote precision are not claimed."
     " C04.5 (shared with C05.5): the open-order index never loses an order that is still open."
+    " C04.5 also (shared with C05.2): the matching loop is on every normal path of on_bar_event."
 )
 TRUSTED = ["CPython ast parser", "sa.absint weak-ordering interpreter (intervals over ranks; undetermined comparisons fork)",
            "assumption: prices > 0 and price impact >= 0 (asserted / validated in the code, see C04.3)"]
